@@ -396,12 +396,18 @@ assert sorted(STIMS.values()) == [STIMS[k] for k in sorted(STIMS)]
 PARTS = {1: 'cuddly-bunny', 2: 'able-ox', 3: 'clean-koi'}
 
 
-def _write_meadows(path, shape, ft, files, stim, parts, layout, varorder=()):
+def _write_meadows(path, shape, ft, files, stim, parts, layout, varorder=(), dup=0):
     """write the file the vector describes; files[r] = {'order': [...ids], 'vec': [...]}"""
     from scipy.io import savemat
+
+    def full(i, ext):
+        # dup: stimuli 1 and 2 share their base name and differ in the extension only
+        if dup and i in (1, 2):
+            return stim[1] + ('.png' if i == 1 else '.jpg')
+        return stim[i] + ext
     if ft == 'mat':
         def names(r):
-            return np.array([stim[i] + '.png' for i in files[r]['order']])
+            return np.array([full(i, '.png') for i in files[r]['order']])
 
         def utv(r):
             return np.array([files[r]['vec']], dtype=float)
@@ -426,7 +432,7 @@ def _write_meadows(path, shape, ft, files, stim, parts, layout, varorder=()):
         for pos, flag in enumerate(layout or [1]):
             if flag and r < len(files):
                 tasks.append({'status': 'finished', 'task': {'name': f'ma{pos}', 'task_type': 'multiarrange'},
-                              'stimuli': [{'id': f'{i:032x}', 'name': stim[i], 'type': 'png'}
+                              'stimuli': [{'id': f'{i:032x}', 'name': full(i, ''), 'type': 'png'}
                                           for i in files[r]['order']],
                               'trials': [], 'rdm': [float(x) for x in files[r]['vec']]})
                 r += 1
@@ -474,8 +480,9 @@ def _replay_meadows(rec, root, idx, words=WORDS):
     case = {'file': fname, 'shape': shape, 'sort': bool(i['sort']),
             'variables_in_file_order': [f"{v['v']}_{parts[v['r'] - 1].replace('-', '_')}" for v in x['varorder']],
             'stimuli_in_file': [[STIMS[s] for s in f['order']] for f in files],
+            'duplicate_base_names': bool(i.get('dup')),
             'vectors_in_file': [f['vec'] for f in files], 'participants': parts, 'task_layout': i['layout']}
-    _write_meadows(path, shape, ft, files, STIMS, parts, i['layout'], varorder=x['varorder'])
+    _write_meadows(path, shape, ft, files, STIMS, parts, i['layout'], varorder=x['varorder'], dup=i.get('dup', 0))
     n = 0
     if not rec['loadable']:
         try:
@@ -518,8 +525,9 @@ def _replay_meadows(rec, root, idx, words=WORDS):
         return n + 1, out, True
     n += 1
     def wanted(y):
-        w = {'conds': [STIMS[s] for s in x['conds']], 'vec': [[float(v) for v in r] for r in y['vec']],
+        w = {'conds': [STIMS[s] for s in x['labels']], 'vec': [[float(v) for v in r] for r in y['vec']],
              'experiment_name': words[x['exp']]}
+        swaps[id(w)] = [[float(v) for v in r] for r in y['vecswap']]    # equal labels in the other order
         if shape == 'mp1t':
             w['participant'] = parts
             w['task'] = [to_str(t, words) for t in x['task']]
@@ -532,10 +540,12 @@ def _replay_meadows(rec, root, idx, words=WORDS):
         return w
     # a json task that lists the same stimuli in another order may be left out (the loader documents a
     # warning) or brought into the common order; anything else is a mismatch
+    swaps = {}
     cands = [wanted(x)]
     if x['alt']['tpos'] != x['tpos']:
         cands.append(wanted({**x, **x['alt']}))
-    if not any(all(g[k] == w[k] for k in w) for w in cands):
+    dp = '/duplicate-base-names' if i.get('dup') and not pv else ''
+    if not any(all(g[k] == w[k] or (k == 'vec' and g[k] == swaps[id(w)]) for k in w) for w in cands):
         want = next((w for w in cands if w.get('task') == g.get('task')), cands[0])
         ro = '/reordered-task' if len(cands) > 1 else ''
         for k, label in (('conds', 'conds'), ('participant', 'participant'), ('task', 'task'),
@@ -550,7 +560,7 @@ def _replay_meadows(rec, root, idx, words=WORDS):
                 what = {'conds': 'stimulus labels differ from the file (in file order / alphabetical order on request)',
                         'vec': 'a dissimilarity is not attached to the two stimuli it belongs to in the file'}.get(
                             k, f'{label} descriptor does not match the file and its name')
-                out.append(('viol', f'C20/c/{cls}{pv}{ro}/{label}', what, {**case, 'got': g, 'want': want}))
+                out.append(('viol', f'C20/c/{cls}{pv}{ro}{dp}/{label}', what, {**case, 'got': g, 'want': want}))
                 break
     return n, out, True
 
@@ -648,7 +658,7 @@ def record_meadows(rng, root, idx, petnames):
            'task_index': g['task_index'] if g['task_index'] is not None else []}
     return {'k': 'meadows', 'fname': atoms, 'got': got, 'text': fname,
             'i': {'order': order, 'sort': sort, 'parts': pids, 'layout': layout, 'pvar': 0,
-                  'uperm': uperm, 'weave': weave}}
+                  'uperm': uperm, 'weave': weave, 'dup': 0}}
 
 
 # ================================================================== (d) MNE epochs
@@ -761,7 +771,7 @@ def replay_mne(rec, real=True, root=None, idx=0):
 def record_mne(rng, root=None, tag=''):
     from rsatoolbox.io.mne import dataset_from_epochs
     i = {'ne': int(rng.integers(1, 7)), 'nc': int(rng.integers(1, 4)), 'nt': int(rng.integers(1, 8)),
-         'sfreq': int([20, 50, 100, 250][rng.integers(4)]), 'first': int(rng.integers(0, 5))}
+         'sfreq': int([20, 50, 100, 250, 256, 600, 2048][rng.integers(7)]), 'first': int(rng.integers(0, 5))}
     i['codes'] = [int(c) for c in rng.integers(1, 40, size=i['ne'])]
     i['name'] = {k: ([] if k == 'ext' else 0) for k in ENTS}
     meas = [[[100 * e + 10 * c + t for t in range(1, i['nt'] + 1)] for c in range(1, i['nc'] + 1)]
@@ -1001,7 +1011,7 @@ def record_hrf(rng):
         nv = int(rng.integers(12, 41))
         conds = list(range(1, nc + 1)) + [int(v) for v in rng.integers(1, nc + 1, size=int(rng.integers(0, 5)))]
         i = {'s': int([10, 20, 25][rng.integers(3)]), 'B': int([5, 10, 20, 30][rng.integers(4)]), 'nvols': nv,
-             'ev': [[int(c), int(rng.integers(0, nv - 2))] for c in rng.permutation(conds)]}
+             'ev': [[int(c), int(rng.integers(-6, nv - 2))] for c in rng.permutation(conds)]}
         ev, tr = _hrf_events(i)
         if ev is not None:
             break
